@@ -185,11 +185,11 @@ end
 
 /-- pickle round trip of an instance: `__getstate__` (set fields and additional properties), then
     `__setstate__` = `__dict__.update(state)` on a bare `cls.__new__(cls)` plus the bookkeeping
-    entries `__init__` creates: `_instantiated = True` and an empty `_none_fields` (which is not
-    part of the state).  (`__getstate__` lists the fields in class-body order, then the extras; the
+    entries `__init__` creates: `_instantiated = True` and `_none_fields` (carried by the state
+    when non-empty, since 7925862; an empty set otherwise).  (`__getstate__` lists the fields in class-body order, then the extras; the
     order of `__dict__` is not observable through `==`, `str` or `hash` and is not modelled.) -/
 def pickleI (S : SetOrder) (x : Inst) : Inst :=
-  { cls := x.cls, attrs := rebuildAttrs S x.attrs, instantiated := true, nones := [], undef := x.undef }
+  { cls := x.cls, attrs := rebuildAttrs S x.attrs, instantiated := true, nones := x.nones, undef := x.undef }
 
 /-- `__deepcopy__`: an immutable structure is returned as is; otherwise every `__dict__` entry is
     deep-copied and re-assigned through `__setattr__` under `_skip_validation`, which drops a
@@ -206,7 +206,8 @@ def addName (f : String) (ns : List String) : List String := if ns.contains f th
 
 /-- `Structure.__setattr__` on a class with `_enable_undefined_value`: after the immutability and
     the non-field checks, `None` for a non-required name is never stored — a field is recorded in
-    `_none_fields` (whatever `__dict__` holds for it stays) — and a non-`None` value for a field
+    `_none_fields` and whatever `__dict__` held for it is removed (since ed6dbae; an immutable
+    field keeps its value) — and a non-`None` value for a field
     discards the name from `_none_fields` and goes through the validated assignment; if that is
     rejected the name is recorded again (failure-atomic since 810b853) -/
 def setattrUndef (O : Oracles) (c : ClassOpts) (fields : List (String × FieldDecl)) (x : Inst)
@@ -216,7 +217,10 @@ def setattrUndef (O : Oracles) (c : ClassOpts) (fields : List (String × FieldDe
     let isField := (lookup f fields).isSome
     if !isField && !c.addl then (x, .err .valueErr)
     else if v.isNone && !c.required.contains f then
-      (if isField then { x with nones := addName f x.nones } else x, .ok)
+      (if isField then
+         { x with nones := addName f x.nones,
+                  attrs := if c.immFields.contains f then x.attrs else assocDel f x.attrs }
+       else x, .ok)
     else
       let r := setattrStep O c fields x.attrs f v
       let ns := match r.2 with
